@@ -54,8 +54,11 @@ Sel(steps, k, cur, root, scope) ==
                  LET n == Len(cur[x].ch) a == Clamp(st.i, n) b == IF st.hasj THEN Clamp(st.j, n) ELSE n
                  IN SliceNode(IF b > a THEN SubSeq(cur[x].ch, a+1, b) ELSE <<>>)], root, scope)
 
-IsDigitStr(s) == Len(s) > 0 /\ Len(s) <= 9 /\ \A i \in 1..Len(s) : s[i] \in 48..57
-ToInt(s) == FoldLeft(LAMBDA acc, c : acc * 10 + (c - 48), 0, s)
+\* int(<tree>) is Python's int() of the text: decimal digits, optionally after one sign character ('+7' is 7; the
+\* grammars of the corpus contain '+' but neither '-', blanks nor '_')
+Unsigned(s) == IF Len(s) > 0 /\ s[1] = 43 THEN Tail(s) ELSE s
+IsDigitStr(s) == LET u == Unsigned(s) IN Len(u) > 0 /\ Len(u) <= 9 /\ \A i \in 1..Len(u) : u[i] \in 48..57
+ToInt(s) == FoldLeft(LAMBDA acc, c : acc * 10 + (c - 48), 0, Unsigned(s))
 
 \* atom verdict on one node: "T", "F" or "X" (raises)
 AtomOn(a, n) ==
@@ -137,6 +140,31 @@ SatM(phi, root, scope, lazy) ==
               ELSE IF \E x \in 1..Len(res) : res[x] = "SELX" THEN "SELX"
               ELSE IF phi.f = "forall" THEN (IF \A x \in 1..Len(res) : res[x] = "T" THEN "T" ELSE "F")
                    ELSE (IF \E x \in 1..Len(res) : res[x] = "T" THEN "T" ELSE "F")
+\* Lazy evaluation, order-agnostic for quantifiers: the set of verdicts a lazy evaluator may report.  and / or are
+\* evaluated left to right and stop at the first deciding operand; a quantifier may visit its elements in ANY order and
+\* stops at the first deciding one - the property fixes no order, and the implementation's differs from document
+\* order - so it may report the deciding verdict if some element can yield it, a raise if some element can raise,
+\* and the other verdict only if every element can yield that.
+RECURSIVE SeqOutcomes(_,_,_)
+SeqOutcomes(sets, k, pass) == IF k > Len(sets) THEN {pass}
+                              ELSE (sets[k] \ {pass}) \cup (IF pass \in sets[k] THEN SeqOutcomes(sets, k + 1, pass) ELSE {})
+RECURSIVE SatL(_,_,_)
+SatL(phi, root, scope) ==
+  CASE phi.f \in {"and", "or"} ->
+         SeqOutcomes([x \in 1..Len(phi.xs) |-> SatL(phi.xs[x], root, scope)], 1, IF phi.f = "and" THEN "T" ELSE "F")
+    [] phi.f \in {"forall", "exists"} ->
+         LET r == Sel(phi.sel, 1, <<>>, root, scope) IN
+         IF ~r.ok THEN {"SELX"}
+         ELSE LET sets == [x \in 1..Len(r.nodes) |-> SatL(phi.body, root, (phi.var :> r.nodes[x]) @@ scope)]
+                  stop == IF phi.f = "forall" THEN "F" ELSE "T"
+                  pass == IF phi.f = "forall" THEN "T" ELSE "F"
+              IN (IF \E x \in 1..Len(sets) : stop \in sets[x] THEN {stop} ELSE {})
+                 \cup (IF \E x \in 1..Len(sets) : "SELX" \in sets[x] THEN {"SELX"} ELSE {})
+                 \cup (IF \A x \in 1..Len(sets) : pass \in sets[x] THEN {pass} ELSE {})
+    [] OTHER -> {SatM(phi, root, scope, FALSE)}
+AgreesLazy(set, got) == \/ got = "T" /\ "T" \in set
+                        \/ got = "F" /\ ("F" \in set \/ "SELX" \in set)
+                        \/ got = "X" /\ "SELX" \in set
 Sat(phi, root, scope) == SatM(phi, root, scope, FALSE)
 SatLazy(phi, root, scope) == SatM(phi, root, scope, TRUE)
 \* whenever no selector raises the two coincide (checked on every judged case by Trace_Constraint)
